@@ -25,7 +25,7 @@ Definition geom_eqb (a b : geom) : bool :=
   match a, b with
   | GPad p, GPad q => rect_eqb p q
   | GCrop p, GCrop q => rect_eqb p q
-  | GResize a b, GResize c d => (a =? c) && (b =? d)
+  | GResize a b m1 m2, GResize c d m3 m4 => (a =? c) && (b =? d) && list_eqb Z.eqb m1 m3 && list_eqb Z.eqb m2 m4
   | GFlip, GFlip | GId, GId => true
   | _, _ => false
   end.
@@ -59,6 +59,7 @@ Inductive case_t :=
 | KMulti (ch cw H W : Z) (code : nat) (wins : list rect)
 | KPatch (ph pw C H W : Z) (perm : list Z) (code : nat) (lh lw : Z) (inv : list Z) (out : list Z)
 | KPatch5 (ph pw C H W : Z) (code : nat) (out : list Z)
+| KPatchwise (ph pw C H W : Z) (code : nat) (out : list Z)
 | KNorm (range_norm_p : bool) (entries : list (Q * Q * Q * Q * Q)).
 
 Definition crop_spec (th tw Hp Wp : Z) (p : rect) : bool := in_boundsb Hp Wp p && has_sizeb th tw p.
@@ -82,15 +83,19 @@ Definition spec_axis_ok (size : Z) (pm : option Z) (idx : list Z) : bool :=
       end
   end.
 
+(* the float32 product u * P is strictly below P (Proofs.fl32_product_below_param) *)
+Definition below (P : Z) (v : Q) : bool := negb (Qle_bool (inject_Z P) v).
+
 Definition spec_contracts (tm fm : option Z) (st sf : Z) (vals : list (Q * Q * Q)) : bool :=
   let need := fun (pm : option Z) => match pm with Some P => negb (P <? 1) | None => false end in
   match need tm, need fm, vals with
   | true, true, [(v1, y1, m1); (v2, y2, m2)] =>
       match tm, fm with
       | Some P1, Some P2 => specaug_contractb st P1 v1 y1 m1 && specaug_contractb sf P2 v2 y2 m2
+                            && below P1 v1 && below P2 v2
       | _, _ => false end
-  | true, false, [(v1, y1, m1)] => match tm with Some P1 => specaug_contractb st P1 v1 y1 m1 | None => false end
-  | false, true, [(v2, y2, m2)] => match fm with Some P2 => specaug_contractb sf P2 v2 y2 m2 | None => false end
+  | true, false, [(v1, y1, m1)] => match tm with Some P1 => specaug_contractb st P1 v1 y1 m1 && below P1 v1 | None => false end
+  | false, true, [(v2, y2, m2)] => match fm with Some P2 => specaug_contractb sf P2 v2 y2 m2 && below P2 v2 | None => false end
   | false, false, [] => true
   | _, _, _ => false
   end.
@@ -200,6 +205,16 @@ Definition check (t : case_t) : nat :=
           let u := of_list5 lh lw ph pw out in
           if negb (list_eqb Z.eqb (to_list3 C H W (unpatchify ph pw u)) (to_list3 C H W (idt H W))) then 2%nat else
           if list_eqb Z.eqb (to_list5 C lh lw ph pw (patchify ph pw (idt H W))) out then 0%nat else 1%nat
+      | Reject k => if Nat.eqb code k then 0%nat else 1%nat
+      | Mismatch => 1%nat
+      end
+  | KPatchwise ph pw C H W code out =>
+      (* the wrapped transform of the correspondence run: call number l flips its patch horizontally and adds 1000 * l *)
+      match patchify_params ph pw H W with
+      | Ok (lh, lw) =>
+          if negb (Nat.eqb code 0) then 1%nat else
+          let f := fun (l : Z) (u : p3 Z) => fun c p q => u c p (pw - 1 - q) + 1000 * l in
+          if list_eqb Z.eqb (to_list3 C H W (patchwise ph pw lw f (idt H W))) out then 0%nat else 1%nat
       | Reject k => if Nat.eqb code k then 0%nat else 1%nat
       | Mismatch => 1%nat
       end
